@@ -80,9 +80,9 @@ type textBackend struct {
 	// property explicitly excludes)
 	outOfScope func(t *xrt.Trap) bool
 	cfg        func() wgen.Config
-	nopt func(thorough bool) int
-	optName func(thorough bool, i int) string
-	run  func(mod *ir.Module, entry string, rs []resInfo, numGroups [3]uint32, thorough bool, optIdx int, trap bool) textRun
+	nopt       func(thorough bool) int
+	optName    func(thorough bool, i int) string
+	run        func(mod *ir.Module, entry string, rs []resInfo, numGroups [3]uint32, thorough bool, optIdx int, trap bool, pc ...map[string]float64) textRun
 }
 
 func isUnsupported(err error) bool {
@@ -108,9 +108,12 @@ var glslBackend = textBackend{
 	},
 	nopt:    func(th bool) int { return len(glslOptionSets(th)) },
 	optName: func(th bool, i int) string { return glslOptionSets(th)[i].name },
-	run: func(mod *ir.Module, entry string, rs []resInfo, ng [3]uint32, th bool, oi int, trap bool) (tr textRun) {
+	run: func(mod *ir.Module, entry string, rs []resInfo, ng [3]uint32, th bool, oi int, trap bool, pc ...map[string]float64) (tr textRun) {
 		os := glslOptionSets(th)[oi]
 		o := os.o()
+		if len(pc) > 0 && pc[0] != nil {
+			o.PipelineConstants = ir.PipelineConstants(pc[0])
+		}
 		o.EntryPoint = entry
 		o.BindingMap = map[glsl.BindingMapKey]uint8{}
 		for n, r := range rs {
@@ -184,7 +187,7 @@ var hlslBackend = textBackend{
 	},
 	nopt:    func(th bool) int { return len(hlslOptionSets(th)) },
 	optName: func(th bool, i int) string { return hlslOptionSets(th)[i].name },
-	run: func(mod *ir.Module, entry string, rs []resInfo, ng3 [3]uint32, th bool, oi int, trap bool) (tr textRun) {
+	run: func(mod *ir.Module, entry string, rs []resInfo, ng3 [3]uint32, th bool, oi int, trap bool, pc ...map[string]float64) (tr textRun) {
 		os := hlslOptionSets(th)[oi]
 		o := os.o()
 		o.FakeMissingBindings = false
@@ -262,9 +265,12 @@ var mslBackend = textBackend{
 	},
 	nopt:    func(th bool) int { return len(mslOptionSets(th)) },
 	optName: func(th bool, i int) string { return mslOptionSets(th)[i].name },
-	run: func(mod *ir.Module, entry string, rs []resInfo, ng3 [3]uint32, th bool, oi int, trap bool) (tr textRun) {
+	run: func(mod *ir.Module, entry string, rs []resInfo, ng3 [3]uint32, th bool, oi int, trap bool, pc ...map[string]float64) (tr textRun) {
 		os := mslOptionSets(th)[oi]
 		o := os.o()
+		if len(pc) > 0 && pc[0] != nil {
+			o.PipelineConstants = pc[0]
+		}
 		o.FakeMissingBindings = false
 		res := map[ir.ResourceBinding]msl.BindTarget{}
 		for n, r := range rs {
